@@ -463,3 +463,35 @@ _run_o15 = run
 def run(ctx, rep, tier):
     _run_o15(ctx, rep, tier)
     _no_literal_split_across_tokens(ctx, rep, tier)
+
+
+# ---------------------------------------------------------------------------------------------------------------- C15.p
+def _parse_tree_is_read_only(ctx, rep, tier):
+    """C15.p (E10): the front end never stores into a parse tree node. The tree is shared: the body of a macro is parsed once per call from the same nodes, a
+    match / expr argument once per use. A converter that strips the suffix of a literal *in the token* (instead of in a copy) denotes the spelled bytes the
+    first time and one byte less every further time; a child list edited in place changes the program for the next expansion."""
+    from .. import treeshape
+    rep.rule("C15.p", "no attribute of a parse tree node is assigned and no child list is modified anywhere in the front end (values typed as grammar shapes by the "
+                      "tree-shape analysis): a literal read a second time - second expansion of a macro body, second use of an argument - spells the same bytes")
+    a = treeshape.analyse(ctx)
+    muts = [f for f in a.findings if f.kind == "MUT"]
+    seen = set()
+    for f in muts:
+        if (f.func, f.construct) in seen:
+            continue
+        seen.add((f.func, f.construct))
+        rep.bad("C15.p", f.func, f"store into the parse tree: {f.construct}"[:200], f.message)
+    n_typed = len({fn for fn, _, _ in a.checked})
+    if n_typed < 12:
+        raise AnalysisError(f"C15.p: only {n_typed} functions handle typed parse tree values (floor 12): the tree-shape analysis has lost its roots")
+    if not muts:
+        rep.ok("C15.p", "front end", f"{n_typed} functions that handle parse tree values: no store into a node, no edit of a child list")
+        rep.bulk_ok("C15.p", n_typed - 1)
+
+
+_run_p15 = run
+
+
+def run(ctx, rep, tier):
+    _run_p15(ctx, rep, tier)
+    _parse_tree_is_read_only(ctx, rep, tier)
